@@ -231,6 +231,182 @@ def special_scenarios():
     finally:
         w.dispose()
         scratch.drop(root)
+    out += namespace_scenarios()
+    return out
+
+
+def namespace_scenarios():
+    """one pipeline file (D -> M in memory -> T) reached plainly, `as a` and `as b` by different member configs: identical
+    computations are one object whatever the namespace; (c) a registry that outlives a chain, (d) forcing by name / by
+    task object / by a one-shot iterable through a member and through the MultiChain, (e) members with different data
+    directories"""
+    import gc
+    import os
+    from pathlib import Path
+    from taskchain import Chain, Config, MultiChain
+
+    out = []
+    desc = {'name': 'mc-ns', 'tasks': {'D': {'name': 'd', 'params': [P('pd', default=1)], 'inputs': [], 'data': 'json'},
+                                         'M': {'name': 'm', 'params': [], 'inputs': [bc('D')], 'data': 'inmemory'},
+                                         'T': {'name': 't', 'params': [P('pt', default=1)], 'inputs': [bc('M')], 'data': 'json'}},
+            'contexts': {'mb': {'kind': 'dict', 'data': {}, 'for_namespaces': {'b': {'pt': 2}}}},   # member `mb` differs in the last task only
+            'configs': {'leaf': {'medium': 'json', 'file': 'leaf.json', 'tasks': ['D', 'M', 'T'], 'values': {}},
+                        'plain': {'medium': 'json', 'file': 'plain.json', 'tasks': [], 'values': {}, 'uses': [{'config': 'leaf'}]},
+                        'ma': {'medium': 'json', 'file': 'ma.json', 'tasks': [], 'values': {}, 'uses': [{'config': 'leaf', 'as': 'a'}]},
+                        'mb': {'medium': 'json', 'file': 'mb.json', 'tasks': [], 'values': {}, 'uses': [{'config': 'leaf', 'as': 'b'}]}},
+            'root': 'plain', 'variants': {'v': []}}
+
+    def runs(w):
+        c = {}
+        for r in w.rt.log:
+            c[r[2]] = c.get(r[2], 0) + 1
+        return c
+
+    # ---- (c) a task registry kept by the program: chains built at different times share the in-memory task object and its value
+    root = scratch.fresh('c13n')
+    w = worlds.World(desc, root)
+    try:
+        registry = {}
+        c1 = Chain(w.make_config('v', base_dir=root + '/data', root='plain'), shared_tasks=registry)
+        c1['t'].value
+        first = runs(w)
+        c2 = Chain(w.make_config('v', base_dir=root + '/data', root='ma'), shared_tasks=registry)
+        if c2['a::m'] is not c1['m']:
+            out.append(('identical computations reached through a shared registry are different objects', 'plain vs `as a`'))
+        c2['a::m'].value
+        c1['m'].value
+        c2['a::t'].value
+        after = runs(w)
+        if after != first:
+            out.append(('a value computed through one chain is computed again for another chain sharing the task object', f'runs before the second chain {first}, after requesting through both chains {after}'))
+    except Exception as e:  # noqa
+        out.append(('chains over one task registry cannot be built / evaluated', f'{type(e).__name__}: {e}'))
+    finally:
+        w.dispose()
+        scratch.drop(root)
+
+    # ---- (d) forcing in a MultiChain whose members mount the pipeline under different namespaces
+    def forced_names(ch):
+        return sorted(n for n, t in ch.tasks.items() if t.is_forced)
+
+    for how in ('name', 'object', 'generator'):
+        for via in ('member-first', 'member-second', 'multichain'):
+            root = scratch.fresh('c13n')
+            w = worlds.World(desc, root)
+            try:
+                cfgs = [w.make_config('v', base_dir=root + '/data', root=r) for r in ('ma', 'mb')]
+                mc = MultiChain(cfgs)
+                ca, cb = mc['ma'], mc['mb']
+                ca['a::t'].value
+                cb['b::t'].value
+                if ca['a::m'] is not cb['b::m'] or ca['a::t'] is cb['b::t']:
+                    out.append(('sharing between members mounted under different namespaces is wrong', f'a::m is b::m: {ca["a::m"] is cb["b::m"]}; a::t is b::t: {ca["a::t"] is cb["b::t"]}'))
+                target = {'member-first': ca, 'member-second': cb, 'multichain': mc}[via]
+                nm = {'member-first': 'a::d', 'member-second': 'b::d', 'multichain': 'd'}[via]
+                if how == 'name':
+                    arg = nm
+                elif how == 'object':
+                    if via == 'multichain':
+                        continue   # a task object belongs to one member's graph
+                    arg = (ca if via == 'member-first' else cb)[nm]
+                else:
+                    arg = (x for x in [nm])
+                target.force(arg)
+                fa, fb = forced_names(ca), forced_names(cb)
+                # d and m are one shared object each, t differs between the members (pt): forcing d through the MultiChain marks d, m, t in
+                # every member; through one member it marks that member's three tasks (the shared d, m show as forced in the other one too)
+                exp_a = ['a::d', 'a::m', 'a::t'] if via != 'member-second' else ['a::d', 'a::m']
+                exp_b = ['b::d', 'b::m', 'b::t'] if via != 'member-first' else ['b::d', 'b::m']
+                if fa != exp_a or fb != exp_b:
+                    out.append((f'forcing {"through the MultiChain" if via == "multichain" else "through a member chain"} does not mark exactly the task and everything downstream of it',
+                                f'force given as {how} via {via}: forced in `ma` {fa} (expected {exp_a}), in `mb` {fb} (expected {exp_b})'))
+                if via == 'multichain':
+                    before = runs(w)
+                    cb['b::t'].value
+                    ca['a::t'].value
+                    after = runs(w)
+                    delta = {k: after.get(k, 0) - before.get(k, 0) for k in after}
+                    if delta != {'D': 1, 'M': 1, 'T': 2}:
+                        out.append(('forced tasks are not recomputed exactly once on the next requests', f'force given as {how} via {via}: runs after forcing {delta}'))
+            except Exception as e:  # noqa
+                out.append(('forcing in a MultiChain with namespaced members fails', f'force given as {how} via {via}: {type(e).__name__}: {e}'))
+            finally:
+                w.dispose()
+                scratch.drop(root)
+
+    # ---- (f) two pipelines mounted under SWAPPED namespaces by the two members; force given as the member's own task object
+    desc2 = {'name': 'mc-swap', 'tasks': desc['tasks'],
+             'configs': {'leaf1': {'medium': 'json', 'file': 'leaf1.json', 'tasks': ['D', 'M', 'T'], 'values': {'pd': 1}},
+                         'leaf2': {'medium': 'json', 'file': 'leaf2.json', 'tasks': ['D', 'M', 'T'], 'values': {'pd': 2}},
+                         'm1': {'medium': 'json', 'file': 'm1.json', 'tasks': [], 'values': {}, 'uses': [{'config': 'leaf1', 'as': 'a'}, {'config': 'leaf2', 'as': 'b'}]},
+                         'm2': {'medium': 'json', 'file': 'm2.json', 'tasks': [], 'values': {}, 'uses': [{'config': 'leaf2', 'as': 'a'}, {'config': 'leaf1', 'as': 'b'}]}},
+             'root': 'm1', 'variants': {'v': []}}
+    for member, name in (('m2', 'b::d'), ('m2', 'a::d'), ('m1', 'a::d')):
+        for as_object in (False, True):
+            root = scratch.fresh('c13n')
+            w = worlds.World(desc2, root)
+            try:
+                mc = MultiChain([w.make_config('v', base_dir=root + '/data', root=r) for r in ('m1', 'm2')])
+                ch = mc[member]
+                pdv = ch[name].params.pd
+                ch.force(ch[name] if as_object else name)
+                got = {m: forced_names(mc[m]) for m in ('m1', 'm2')}
+                ns, other = name.split('::')[0], {'a': 'b', 'b': 'a'}[name.split('::')[0]]
+                exp = {member: [f'{ns}::d', f'{ns}::m', f'{ns}::t'], ('m1' if member == 'm2' else 'm2'): [f'{other}::d', f'{other}::m', f'{other}::t']}   # the same three shared objects under the other member's names
+                if got != exp:
+                    out.append(('forcing through a member chain marks other tasks than the named one and everything downstream of it',
+                                f'{member}.force({"task object " if as_object else ""}{name!r}) (pd={pdv}): forced {got}, expected {exp}'))
+            except Exception as e:  # noqa
+                out.append(('forcing in a MultiChain with swapped namespaces fails', f'{member}.force({"task object " if as_object else ""}{name!r}): {type(e).__name__}: {e}'))
+            finally:
+                w.dispose()
+                scratch.drop(root)
+
+    # ---- (g) the mounted pipeline itself uses a namespaced config whose name ends like the mount name (`as a` around `as data`)
+    desc3 = {'name': 'mc-inner', 'tasks': {'D': {'name': 'd', 'params': [P('pd', default=1)], 'inputs': [], 'data': 'json'},
+                                            'U': {'name': 'u', 'params': [], 'inputs': [{'how': 'name', 'ref': 'data::d'}], 'data': 'json'}},
+             'configs': {'leafx': {'medium': 'json', 'file': 'leafx.json', 'tasks': ['D'], 'values': {}},
+                         'pipe': {'medium': 'json', 'file': 'pipe.json', 'tasks': ['U'], 'values': {}, 'uses': [{'config': 'leafx', 'as': 'data'}]},
+                         'ma': {'medium': 'json', 'file': 'ma.json', 'tasks': [], 'values': {}, 'uses': [{'config': 'pipe', 'as': 'a'}]},
+                         'mdata': {'medium': 'json', 'file': 'mdata.json', 'tasks': [], 'values': {}, 'uses': [{'config': 'pipe', 'as': 'ta'}]},
+                         'mb': {'medium': 'json', 'file': 'mb.json', 'tasks': [], 'values': {}, 'uses': [{'config': 'pipe', 'as': 'b'}]}},
+             'root': 'pipe', 'variants': {'v': []}}
+    root = scratch.fresh('c13n')
+    w = worlds.World(desc3, root)
+    try:
+        mc = MultiChain([w.make_config('v', base_dir=root + '/data', root=r) for r in ('ma', 'mb', 'mdata')])
+        alone = Chain(w.make_config('v', base_dir=root + '/data', root='pipe'))
+        objs = [mc['ma']['a::u'], mc['mb']['b::u'], mc['mdata']['ta::u']]
+        paths = [os.path.relpath(str(t.data_path), root) for t in objs] + [os.path.relpath(str(alone['u'].data_path), root)]
+        if len(set(paths)) != 1:
+            out.append(('the same computation has different storage locations in different members', f'pipeline mounted as a / b / ta / not mounted: {paths}'))
+        elif not (objs[0] is objs[1] is objs[2]):
+            out.append(('tasks that are the same computation are not one shared object across the chains', 'pipeline (using `leafx as data`) mounted as a, b and ta'))
+    except Exception as e:  # noqa
+        out.append(('MultiChain over a pipeline with an inner namespace cannot be built / evaluated', f'{type(e).__name__}: {e}'))
+    finally:
+        w.dispose()
+        scratch.drop(root)
+
+    # ---- (e) members with their own data directories: storage locations as for the standalone chains
+    root = scratch.fresh('c13n')
+    w = worlds.World(desc, root)
+    try:
+        c1 = w.make_config('v', base_dir=root + '/data1', root='plain')
+        c2 = w.make_config('v', base_dir=root + '/data2', root='ma')
+        mc = MultiChain([c1, c2])
+        p1, p2 = str(mc['plain']['d'].data_path), str(mc['ma']['a::d'].data_path)
+        s2 = str(Chain(w.make_config('v', base_dir=root + '/data2', root='ma'))['a::d'].data_path)
+        if p2 != s2:
+            out.append(('storage location of a member chain differs from the standalone chain of the same config', f'member `ma` (data directory data2): {os.path.relpath(p2, root)}, standalone {os.path.relpath(s2, root)}'))
+        mc['ma']['a::t'].value
+        if not os.path.exists(s2):
+            out.append(('value computed through a member chain is not stored where the standalone chain looks for it', f'{os.path.relpath(s2, root)} missing'))
+    except Exception as e:  # noqa
+        out.append(('MultiChain over members with different data directories cannot be built / evaluated', f'{type(e).__name__}: {e}'))
+    finally:
+        w.dispose()
+        scratch.drop(root)
     return out
 
 
